@@ -116,6 +116,10 @@ pub fn items() -> Vec<Item> {
         it("g + MAX(v)", "MAX+g", "v", false),
         it("SUM(v) * 10 + g", "SUM*10+g", "v", false),
         it("COUNT(v) + g", "COUNT+g", "v", true),
+        // a prefix operator directly around the aggregate
+        it("- SUM(v)", "NEG-SUM", "v", false),
+        it("NOT BOOL_OR(b)", "NOT-BOOL_OR", "b", false),
+        it("100 + - MAX(v)", "100-MAX", "v", false),
     ]
 }
 
@@ -239,6 +243,23 @@ fn agg_value(item: &Item, rows: &[&Row]) -> Cell {
                 _ => Cell::Open,
             }
         }
+        "NEG-SUM" => match sum() {
+            Cell::Val(RVal::Int(i)) => v(RVal::Int(-i)),
+            Cell::Val(RVal::Null) => v(RVal::Null),
+            _ => Cell::Open,
+        },
+        "100-MAX" => match extreme(Ordering::Greater) {
+            Cell::Val(RVal::Int(i)) => v(RVal::Int(100 - i)),
+            Cell::Val(RVal::Null) => v(RVal::Null),
+            _ => Cell::Open,
+        },
+        "NOT-BOOL_OR" => {
+            if vals.is_empty() {
+                Cell::Open // NOT applied to NULL is an open point
+            } else {
+                v(RVal::Bool(!vals.iter().any(|x| matches!(x, RVal::Bool(true)))))
+            }
+        }
         "MAX+1" => match extreme(Ordering::Greater) {
             Cell::Val(RVal::Int(i)) => v(RVal::Int(i + 1)),
             Cell::Val(RVal::Null) => v(RVal::Null),
@@ -311,7 +332,7 @@ pub struct Stmt {
 
 const GROUPS: [&str; 5] = ["", "GROUP BY k", "GROUP BY k, g", "GROUP BY upper(k)", "GROUP BY g"];
 const FILTERS: [&str; 3] = ["", "WHERE v IS NOT NULL", "WHERE g = 1"];
-const HAVINGS: [&str; 11] = ["", "HAVING COUNT(*) > 1", "HAVING k IS NOT NULL", "HAVING SUM(v) > 2", "HAVING MAX(v) = 3", "HAVING COUNT(v) = 0", "HAVING COUNT(*) > 1 AND SUM(v) > 2", "HAVING SUM(v) > 2 AND COUNT(*) > 1", "HAVING MAX(v) = 3 OR COUNT(v) = 0", "HAVING COUNT(DISTINCT v) = 1", "HAVING COUNT(DISTINCT v) < COUNT(v)"];
+const HAVINGS: [&str; 12] = ["", "HAVING COUNT(*) > 1", "HAVING k IS NOT NULL", "HAVING SUM(v) > 2", "HAVING MAX(v) = 3", "HAVING COUNT(v) = 0", "HAVING COUNT(*) > 1 AND SUM(v) > 2", "HAVING SUM(v) > 2 AND COUNT(*) > 1", "HAVING MAX(v) = 3 OR COUNT(v) = 0", "HAVING COUNT(DISTINCT v) = 1", "HAVING COUNT(DISTINCT v) < COUNT(v)", "HAVING PERCENTILE(v, 0.5) > 1"];
 
 fn keys_of(group_by: usize) -> Vec<&'static str> {
     match group_by {
@@ -416,6 +437,12 @@ fn reference(st: &Stmt, input: &[&Row]) -> Option<Vec<RefGroup>> {
                 Cell::Val(RVal::Null) => Some(nonnull(&grows, "v").is_empty()),
                 _ => None,
             },
+            11 => match agg_value(&its[21], &grows) {
+                // PERCENTILE(v, 0.5) (item 21) used only in HAVING
+                Cell::Val(RVal::Int(m)) => Some(m > 1),
+                Cell::Val(RVal::Null) => Some(false),
+                _ => None,
+            },
             _ => {
                 let vals = nonnull(&grows, "v");
                 let mut d: Vec<&RVal> = Vec::new();
@@ -450,7 +477,7 @@ fn reference(st: &Stmt, input: &[&Row]) -> Option<Vec<RefGroup>> {
         // HAVING aggregates also create entries
         let having_entry = match st.having {
             1 | 6 | 7 | 8 => true,                     // COUNT(*) / SUM / MAX are present
-            3 | 4 => true,                             // SUM / MAX create NULL entries
+            3 | 4 | 11 => true,                        // SUM / MAX / PERCENTILE create NULL entries
             5 | 9 | 10 => !nonnull(&grows, "v").is_empty(), // COUNT(v) / COUNT(DISTINCT v)
             _ => false,
         };
